@@ -7,13 +7,15 @@
 (***************************************************************************)
 EXTENDS Integers, Sequences, FiniteSets
 
-\* the node universe: ids with repeats, two ports, with and without a last error
+\* the node universe: ids with repeats, two ports whose decimal strings order the
+\* other way round than the numbers (9001 < 10000 but "10000" < "9001"), with and
+\* without a last error
 U == << [id |-> 1, port |-> 9001, err |-> FALSE],
-        [id |-> 1, port |-> 9002, err |-> TRUE],
+        [id |-> 1, port |-> 10000, err |-> TRUE],
         [id |-> 2, port |-> 9001, err |-> FALSE],
-        [id |-> 2, port |-> 9002, err |-> TRUE],
+        [id |-> 2, port |-> 10000, err |-> TRUE],
         [id |-> 3, port |-> 9001, err |-> TRUE],
-        [id |-> 3, port |-> 9002, err |-> FALSE] >>
+        [id |-> 3, port |-> 10000, err |-> FALSE] >>
 UI   == DOMAIN U
 Keys == {"ID", "Port", "LastNodeError"}
 
